@@ -6,6 +6,9 @@ ids = [json.loads(l)['id'] for l in open(os.path.join(ROOT, 'properties.jsonl'))
 
 E3 = "smallscope (E3): bounded-exhaustive enumeration of inputs/histories on the real code against a reference oracle"
 CHECKS = {
+ "C02": dict(cat="model_checking", eng="E2 bubblesim (synctest, fake clock, mocknet)", tech="exhaustive enumeration of operation histories x batching configurations x age ticks x injected datastore failures x queue bursts (single replica) and of operation / link / sync histories (2-3 replicas) executed on real CRDT replicas; reference model of accepted operations evaluated at every quiescent state",
+   text="(a) one REAL crdt.Consensus replica (go-ds-crdt over a fault-injecting datastore) per history: every history up to length 4 (thorough 5) over pin/unpin on 2 colliding CIDs, age ticks on the fake clock and <=1 (thorough 2) injected datastore failures, for batching off / size 2 / size 3 / age 5s / size+age, plus queue-of-1 bursts against a worker parked inside a datastore write; model: an accepted operation takes effect in submission order per CID, a batch becomes visible exactly when its size or age limit is reached (not before), a refused operation never takes effect, after a fault everything accepted is visible once the age limit has passed again with a healthy datastore, every change in the pinset was handed to the tracker. (b) 2 (thorough 3) real replicas with pubsub+bitswap over mocknet: every history up to length 4 (thorough 5) of operations at any replica, unlink/link and sync points; oracle: after exchanging all updates all replicas hold the same pinset, and for a CID whose writes since the last sync point all came from one replica the last one wins.",
+   note="Findings must reproduce on two further executions of the same history before they are reported (libp2p/bitswap internals are not deterministic under the bubble); non-reproducing ones are counted and the run marked exhaustive:false. Concurrent writes to one CID from different replicas: only agreement is required.", ref="DESIGN.md §4 C02"),
  "C01": dict(cat="model_checking", eng="E2 bubblesim (synctest, fake clock, mocknet)", tech="exhaustive enumeration of operation histories x pin variants x deviation points (follower lag with/without snapshot+log truncation, snapshot, restart, kill/recover from a disk copy, isolated leader) executed on real Raft peers; invariants evaluated at every quiescent state",
    text="1 and 3 REAL raft.Consensus peers (hashicorp/raft, boltdb on disk, go-libp2p-raft transport, leader redirect over gorpc) on a libp2p mocknet inside synctest bubbles with a fake clock. Every history over the op alphabet (pin variants x 2 CIDs x submitting role, unpin) up to length 3 (thorough 4) with at most 1 (thorough 2) composite deviation at every position, plus all 14 pin variants as single-op histories through redirect, log, snapshot and restore. Oracle in every quiescent state: each member's pinset is the result of a prefix of the acknowledged sequence (own field-by-field comparator), an acknowledged operation is visible on the committing leader at once, a peer that has caught up (shows a marker committed after the history) holds exactly the whole sequence and so does its state read offline after shutdown, tracker hand-over matches the committed operations.",
    note="Kills are taken at quiescent points (disk image = copy of the data folder); torn writes inside boltdb / snapshot files are not modelled. Leader identity is chosen by hashicorp/raft's randomised timeouts: histories address roles. An operation whose acknowledgement failed may or may not be part of the sequence (both accepted).", ref="DESIGN.md §4 C01"),
@@ -59,7 +62,7 @@ m = {
    "add_only": True},
  "engines": [
    {"name": "E1 bubblesched", "path": "harness/lib/e1, shim/sched, shim/sync, tools/mkoverlay", "serves_properties": ["C18"], "kind_free_text": "stateless preemption-bounded DFS over schedules of the real code under a cooperative scheduler inside testing/synctest bubbles"},
-   {"name": "E2 bubblesim", "path": "harness/lib/clus + per-check drivers", "serves_properties": ["C01","C16"], "kind_free_text": "event/fault-level exhaustive exploration of real components inside synctest bubbles (fake clock, quiescence detection)"},
+   {"name": "E2 bubblesim", "path": "harness/lib/clus + per-check drivers", "serves_properties": ["C01","C02","C16"], "kind_free_text": "event/fault-level exhaustive exploration of real components inside synctest bubbles (fake clock, quiescence detection)"},
    {"name": "E3 smallscope", "path": "harness/cNN", "serves_properties": ["C11","C12","C13","C14","C15"], "kind_free_text": "bounded-exhaustive inputs / explicit-state BFS over call histories against small reference models"},
  ],
  "checks": checks,
